@@ -21,6 +21,7 @@ structure Eng where
   disableDiscovery : Bool     -- `config.disable_discovery`
   reading : Bool              -- `_transport.is_reading()`
   writePaused : Bool          -- `_protocol._pause_writing`
+  locked : Bool := false      -- `_engine_lock.locked()` (a non-reentrant threading.Lock; free at rest)
   deriving DecidableEq, Repr
 
 inductive Res where
@@ -31,20 +32,23 @@ inductive Res where
 
 /-- `Gateway._pause()` (which wraps `Engine._pause(disc_flag)`) -/
 def pause (e : Eng) : Eng × Res :=
+  if e.locked then (e, .runtimeError) else   -- `acquire(blocking=False)` fails: "failed to acquire lock"
   match e.saved with
-  | some _ => (e, .runtimeError)         -- discovery flag is put back by the `except RuntimeError`
+  | some _ => (e, .runtimeError)         -- the lock is released again before raising "already paused";
+                                         -- the discovery flag is put back by the `except RuntimeError`
   | none =>
     ({ saved := some ⟨e.handler, e.disableSending, e.disableDiscovery⟩,
        handler := false, disableSending := true, disableDiscovery := true,
-       reading := false, writePaused := true }, .ok)
+       reading := false, writePaused := true, locked := false }, .ok)
 
 /-- `Gateway._resume()` -/
 def resume (e : Eng) : Eng × Res :=
+  if e.locked then (e, .runtimeError) else   -- `acquire(timeout=0.1)` fails: "failed to acquire lock"
   match e.saved with
   | none => (e, .runtimeError)
   | some s =>
     ({ saved := none, handler := s.handler, disableSending := s.readOnly, disableDiscovery := s.discFlag,
-       reading := true, writePaused := if s.readOnly then e.writePaused else false }, .ok)
+       reading := true, writePaused := if s.readOnly then e.writePaused else false, locked := false }, .ok)
 
 /-- `get_state()` / `_restore_cached_packets()`: pause; the body (which may raise); resume **in a
     `finally`** -/
@@ -63,10 +67,24 @@ def unguarded (bodyRaises : Bool) (e : Eng) : Eng × Res :=
 
 /-- a running engine with sending enabled -/
 def Running (e : Eng) : Prop :=
-  e.saved = none ∧ e.handler = true ∧ e.reading = true ∧ (e.disableSending = false → e.writePaused = false)
+  e.saved = none ∧ e.handler = true ∧ e.reading = true ∧ (e.disableSending = false → e.writePaused = false) ∧
+  e.locked = false
 
 def runOps (e : Eng) : List Bool → Eng
   | [] => e
   | b :: bs => runOps (guarded b e).1 bs
+
+/-- an operation during which other snapshot / restore attempts are made (a state-saver task
+    running while `_restore_cached_packets` awaits its reader): pause; the nested attempts, each
+    refused; the body; resume -/
+def guardedWithNested (bodyRaises : Bool) (nested : List Bool) (e : Eng) : Eng × Res × List Res :=
+  match pause e with
+  | (e', .ok) =>
+    let (e2, rs) := nested.foldl (fun (acc : Eng × List Res) b =>
+        let (x, r) := guarded b acc.1
+        (x, acc.2 ++ [r])) (e', [])
+    let (e3, r3) := resume e2
+    (e3, (if r3 = .ok then (if bodyRaises then .raised else .ok) else r3), rs)
+  | (e', r) => (e', r, [])
 
 end Ramses.Eng
